@@ -286,7 +286,7 @@ pub fn isolated_cases() -> Vec<(&'static str, &'static str, Vec<Op>)> {
         "LibT",
         reg.iter()
             .cloned()
-            .chain([Op::Import("extra".into(), 0), Op::Import("k".into(), 1), Op::Import("t:types/base@1.0.0".into(), 1)])
+            .chain([Op::Import("k".into(), 1), Op::Import("t:types/base@1.0.0".into(), 1)])
             .collect(),
     )]
 }
@@ -415,7 +415,23 @@ pub fn run(args: &[String]) {
         let stderr = String::from_utf8_lossy(&out.stderr);
         match out.status.code() {
             Some(0) => {}
-            Some(1) => ctx.violation(format!("{fp}/no-abort-but-violates"), format!("isolated case violates without aborting: {}", String::from_utf8_lossy(&out.stdout)), case),
+            Some(1) => {
+                // the history no longer aborts but violates: report what the replay found under its own
+                // fingerprints (known causes stay known, anything else is a new violation)
+                let so = String::from_utf8_lossy(&out.stdout).to_string();
+                let lines: Vec<&str> = so.lines().collect();
+                let mut n = 0;
+                for (i, l) in lines.iter().enumerate() {
+                    if let Some(f) = l.trim_start().strip_prefix("fingerprint: ") {
+                        let what = lines.get(i + 1).map(|w| w.trim_start().trim_start_matches("what: ")).unwrap_or("");
+                        ctx.violation(f.to_string(), format!("history isolated because it used to abort the process; it now returns: {what}"), case.clone());
+                        n += 1;
+                    }
+                }
+                if n == 0 {
+                    ctx.violation(format!("{fp}/no-abort-but-violates"), format!("isolated case violates without aborting: {so}"), case);
+                }
+            }
             Some(c) => mc_core::machinery_error(&format!("isolated replay exited with {c}: {stderr}")),
             None => ctx.violation(
                 fp.to_string(),
